@@ -361,6 +361,63 @@ func c02Slicing(driver string, shard, nshards int) vh.Unit {
 	}}
 }
 
+// latencyStore lets (virtual) time pass inside a keep-alive, between the store stamping the node's
+// check-in and the balance manager reading the clock - as a slow disk or a GC pause would.
+type latencyStore struct {
+	store.Store
+	delay time.Duration
+}
+
+func (l latencyStore) UpdateNodePeers(id store.NodeID, peers []string, b uint64) ([]store.NodeID, error) {
+	r, err := l.Store.UpdateNodePeers(id, peers, b)
+	vsched.Advance(l.delay)
+	return r, err
+}
+
+// no stretch of time is charged twice, also when processing a keep-alive takes time
+func c02Latency(driver string) vh.Unit {
+	name := "processing-latency/" + driver
+	ids := vh.Identities()
+	C, H1 := ids[0], ids[1]
+	return vh.Unit{Name: name, Run: func(u *vh.U) {
+		for _, delay := range []time.Duration{0, time.Millisecond, 2 * time.Second} {
+			for _, rounds := range []int{1, 3} {
+				vsched.ResetClock(0)
+				pw := vh.NewPoolWorld(vh.PoolConfig{Driver: driver, Price: big.NewInt(1), Interval: 1, WrapStore: func(s store.Store) store.Store { return latencyStore{s, delay} }})
+				pw.Connect(H1, vh.ConnectOpts{Host: true})
+				pw.Connect(C, vh.ConnectOpts{})
+				pw.Update(C, []string{H1.NodeID}, 1)
+				n0, _ := pw.Raw.GetNode(store.NodeID(C.NodeID))
+				before := vh.ReadLedger(pw.Raw, []string{C.NodeID, H1.NodeID}, nil)
+				for i := 0; i < rounds; i++ {
+					vsched.Advance(30 * time.Second)
+					pw.Update(H1, nil, 2)
+					if _, err := pw.Update(C, []string{H1.NodeID}, 2); err != nil {
+						u.Violate("latency/"+driver+"/update-failed", err.Error(), nil)
+						return
+					}
+				}
+				n1, _ := pw.Raw.GetNode(store.NodeID(C.NodeID))
+				after := vh.ReadLedger(pw.Raw, []string{C.NodeID, H1.NodeID}, nil)
+				span := n1.LastSeen.Sub(n0.LastSeen) // from the first recorded check-in to the last one
+				got := before.Diff(after)["trial:"+H1.NodeID]
+				if got == nil {
+					got = new(big.Int)
+				}
+				u.R.Evaluations++
+				u.R.States++
+				u.R.Transitions += int64(rounds)
+				u.R.Traces++
+				u.Observe(fmt.Sprintf("%s %d over=%s", delay, rounds, new(big.Int).Sub(got, big.NewInt(int64(span)))))
+				if got.Cmp(big.NewInt(int64(span))) > 0 {
+					u.Violate("latency/time-charged-twice", fmt.Sprintf("driver %s, %d keep-alives, %s passing inside each keep-alive between the check-in stamp and the billing: the peer was credited %s ns worth for a span of %d ns between the client's first and last recorded check-in", driver, rounds, delay, got, int64(span)), nil)
+				}
+			}
+		}
+		u.Sample("keep-alives during which 0 / 1ms / 2s pass between UpdateNodePeers and OnUpdate")
+	}}
+}
+
 // all-or-nothing: one store call of the billing keep-alive fails, every position.
 func c02Atomic(driver string) vh.Unit {
 	name := "all-or-nothing/" + driver
@@ -434,7 +491,7 @@ func c02Atomic(driver string) vh.Unit {
 func init() {
 	vh.Register(&vh.Check{
 		ID: "C02", Level: "model_checking",
-		Technique: "bounded-exhaustive enumeration of billing inputs and of all keep-alive slicings of one span on the real balance manager/pool, judged by the defining inequality of the floor quotient; exhaustive single-fault injection over the store calls of a keep-alive",
+		Technique: "schedule DFS of overlapping keep-alives of one client with a serial-permutation oracle; bounded-exhaustive enumeration of billing inputs and of all keep-alive slicings of one span on the real balance manager/pool, judged by the defining inequality of the floor quotient; exhaustive single-fault injection over the store calls of a keep-alive",
 		Rule:      "full product of elapsed x price x interval x peer set x host/client x linked/unlinked on the real OnUpdate (both drivers); all 32 cut sets of a 6-step span x 18 price/interval/peer configurations through the real signed pool; every store-call position of a billing keep-alive failed once; distinct = distinct (peer count, linkage, charge magnitude) resp. (config, keep-alive count, rounding loss) observations",
 		Assumptions: []string{
 			"a keep-alive that reports an error must leave the balances either untouched or in the complete fault-free outcome (fully applied, error only from the final read-back)", "all-or-nothing is judged on balances (what the property's billing statement is about), not on the keep-alive's LastSeen/peer bookkeeping",
@@ -453,7 +510,19 @@ func init() {
 				for s := 0; s < n; s++ {
 					us = append(us, c02Slicing(d, s, n))
 				}
-				us = append(us, c02Atomic(d))
+				us = append(us, c02Atomic(d), c02Latency(d))
+				// no stretch of time is charged twice, also when keep-alives of one client overlap
+				b := 2
+				if d == vh.Badger {
+					b = 1
+				}
+				if tier == "thorough" {
+					b++
+				}
+				us = append(us, c10SerialNamed("overlapping-keepalives", d, "same-client-twice", b))
+				if d == vh.Memory {
+					us = append(us, c10SerialNamed("overlapping-keepalives", d, "queued-then-late", b))
+				}
 			}
 			return us
 		},
